@@ -15,7 +15,7 @@ from vf.core import CaseResult, Ctx, Violation, hyp_run, exc_sig
 
 PROP_ID = 'C36'
 LEVEL = 'exploration'
-BUDGET = {'quick': 4000, 'thorough': 100000}
+BUDGET = {'quick': 2400, 'thorough': 100000}
 RULE = (
     'Hypothesis renders a flow.cylc (plus 0-3 %include files, nested, one in '
     'a sub-directory) from a line grammar: section headings at depth 1-3 '
@@ -49,6 +49,11 @@ ASSUMPTIONS = [
     'generator: jinja2process uses str.splitlines(), so \\r (and \\x0b \\x0c '
     '\\x1c-\\x1e \\x85 \\u2028 \\u2029) produced by Jinja2 are line breaks in '
     'both parses; mutant c36-splitn (split("\\n")) is detected.',
+    'Sensitivity (tools/mut.sh, quick): detected: processed file written '
+    'with lines strip()ped, written without blank lines, "#!jinja2" kept in '
+    'the Jinja2 output (Jinja2 re-run), jinja2process split("\\n"). The '
+    'DESIGN mutant "write the pre-concatenation lines" is equivalent for '
+    'this property (re-reading joins them again).',
 ]
 MANIFEST = {'engine': 'P', 'technique': 'Hypothesis grammar-based flow files, self-differential'}
 
